@@ -135,6 +135,16 @@ int close(int fd) { REAL(close); char nm[32]; int e, r;
 #include <time.h>
 pid_t getpid(void) { REAL(getpid); const char *e = getenv("SYSSHIM_PID"); return e ? (pid_t) atol(e) : real(); }
 time_t time(time_t *t) { REAL(time); const char *e = getenv("SYSSHIM_TIME"); time_t v = e ? (time_t) atol(e) : real(0); if (t) *t = v; return v; }
+int setgroups(size_t n, const gid_t *l) { REAL(setgroups); int e = fault("setgroups", ""), r;
+  if (e) { errno = e; slog("setgroups %zu %u = -1 %d INJECTED", n, n ? (unsigned) l[0] : 0u, e); return -1; }
+  r = real(n, l); { int se = errno; slog("setgroups %zu %u = %d %d", n, n ? (unsigned) l[0] : 0u, r, r ? se : 0); errno = se; } return r; }
+int setgid(gid_t g) { REAL(setgid); int e = fault("setgid", ""), r;
+  if (e) { errno = e; slog("setgid %u = -1 %d INJECTED", (unsigned) g, e); return -1; }
+  r = real(g); { int se = errno; slog("setgid %u = %d %d", (unsigned) g, r, r ? se : 0); errno = se; } return r; }
+int setuid(uid_t u) { REAL(setuid); int e = fault("setuid", ""), r;
+  if (e) { errno = e; slog("setuid %u = -1 %d INJECTED", (unsigned) u, e); return -1; }
+  r = real(u); { int se = errno; slog("setuid %u = %d %d", (unsigned) u, r, r ? se : 0); errno = se; } return r; }
+int execv(const char *path, char *const argv[]) { REAL(execv); slog("execv %s uid=%u gid=%u", path, (unsigned) getuid(), (unsigned) getgid()); return real(path, argv); }
 unsigned int alarm(unsigned int secs) { REAL(alarm); slog("alarm %u", secs); return real(secs); }
 ssize_t read(int fd, void *buf, size_t n) { REAL(read); char nm[32]; int e; snprintf(nm, sizeof nm, "fd%d", fd);
   if (nrules > 0 || nrules < 0 || have_k) { e = fault("read", nm); if (e) { errno = e; slog("read %d = -1 %d INJECTED", fd, e); return -1; } }
